@@ -300,7 +300,7 @@ class ExcelModel:
                 val = val.text
             val = val[:2] == '==' and val[1:] or val
         elif cell.data_type == 'n' and isinstance(val, float):
-            val = round(val, 15)
+            val = float('%.15g' % val)  # 15 significant digits, as stored.
 
         check_formula = cell.data_type != 's'
         return self._compile_cell(crd, val, context, check_formula, references)
